@@ -84,6 +84,7 @@ int main(int argc, char **argv) {
   bool fb = flags.find('b') != std::string::npos, fl = flags.find('l') != std::string::npos, ft = flags.find('t') != std::string::npos;
   bool fc = flags.find('c') != std::string::npos;   // compile only
   bool fk = flags.find('k') != std::string::npos;   // tokens only (--tokens)
+  bool fo = flags.find('o') != std::string::npos;   // also the lowered and optimised directive lists
   if (chdir(scratch.c_str()) != 0) return 2;
   signal(SIGVTALRM, on_alarm);
   std::string line, binpath = "x_case.bin";
@@ -187,6 +188,11 @@ int main(int argc, char **argv) {
       fprintf(g_out, ",\"dbg\":"); bytes(g_out, bin, imgEnd, bin.size());
     }
     if (fl) fprintf(g_out, ",\"listing\":\"%s\"", jesc(listing).c_str());
+    if (fo) {
+      std::ostringstream lo, op;
+      try { xcmp::Driver d1(lo); d1.run(xcmp::DriverAction::EMIT_LOWERED_INSTS, src, false); xcmp::Driver d2(op); d2.run(xcmp::DriverAction::EMIT_OPTIMISED_INSTS, src, false); } catch (const std::exception &) {}
+      fprintf(g_out, ",\"lowered\":\"%s\",\"optimised\":\"%s\"", jesc(lo.str()).c_str(), jesc(op.str()).c_str());
+    }
     if (ft) fprintf(g_out, ",\"trace\":\"%s\"", jesc(trace).c_str());
     fprintf(g_out, "}\n");
   }
